@@ -675,17 +675,19 @@ pub fn format_repeat_block(ctx: &Context, repeat_block: &Repeat, shape: Shape) -
     let condition = remove_condition_parentheses(repeat_block.until().to_owned());
 
     // Determine if we need to hang the condition
-    let singleline_shape = shape + (6 + strip_trivia(&condition).to_string().len()); // 6 = "until "
+    // (measured on the formatted condition: the spacing of the input must not influence the layout)
+    let shape = shape + 6; // 6 = "until "
+    let singleline_condition = format_expression(ctx, &condition, shape);
+    let singleline_shape = shape + strip_trivia(&singleline_condition).to_string().len();
     let require_multiline_expression =
         singleline_shape.over_budget() || condition.has_inline_comments();
 
-    let shape = shape + 6; // 6 = "until "
     let until = match require_multiline_expression {
         true => {
             let shape = shape.increment_additional_indent();
             hang_expression_trailing_newline(ctx, &condition, shape, None)
         }
-        false => format_expression(ctx, &condition, shape)
+        false => singleline_condition
             .update_trailing_trivia(FormatTriviaType::Append(trailing_trivia)),
     };
 
